@@ -272,6 +272,7 @@ def run(ck):
     r7(ck, hh)
     r8_names_written_in_a_readable_form(ck, hdr)
     r9_quoted_form_is_read_back(ck)
+    r10_kind_is_a_function_of_the_hunks(ck)
 
 
 def r6(ck, hw):
@@ -440,6 +441,51 @@ def _short(fn):
     if i.startswith("<") and " as " in i:
         return i[1:i.index(" as ")].split("::")[-1].split("<")[0] + "::" + i.split("::")[-1]
     return "::".join(i.split("::")[-2:])
+
+
+def r10_kind_is_a_function_of_the_hunks(ck, rule="C12-R10"):
+    """The written form has no word for the kind of a file patch: a reader tells creation / deletion / modification from the shape of
+    the hunks (`-0,0` / `+0,0`).  So the kind the parser stores must be that function of the hunks it stores - then writing and
+    re-reading cannot change it.  Every `FilePatchBuilder::kind(k)`: k is `recognize_kind(&h)` of the very `h` given to `.hunks(h)`
+    on the same builder (a kind that arrives as a parameter is followed to the callers)."""
+    prog = ck.prog
+    n = 0
+    for fn in sorted(prog.fns.values(), key=lambda f: f.id):
+        if "/tests/" in fn.file:
+            continue
+        kinds = [(bb, t) for bb, t in fn.calls() if (callee_of(t).get("path") or "").endswith("FilePatchBuilder::<'a, Line>::kind") and not fn.blocks[bb]["cleanup"]]
+        if not kinds:
+            continue
+        hunk_args = [df.operand_expr(fn, t["args"][1]) for bb, t in fn.calls()
+                     if (callee_of(t).get("path") or "").endswith("FilePatchBuilder::<'a, Line>::hunks") and len(t["args"]) == 2 and not fn.blocks[bb]["cleanup"]]
+        for bb, t in kinds:
+            n += 1
+            k = df.operand_expr(fn, t["args"][1])
+
+            def from_hunks(host, e, hs):
+                if df.is_call(e, "recognize_kind") and len(e[2]) >= 2:
+                    h = e[2][-1]
+                    while isinstance(h, tuple) and h and h[0] in ("ref", "deref") and len(h) > 1:
+                        h = h[1]
+                    return any(h == x or df.mentions(x, lambda y: y == h) or df.mentions(h, lambda y: y == x) for x in hs)
+                return False
+            ok = from_hunks(fn, k, hunk_args)
+            why = "the kind is %s" % df.show(k, 100)
+            if not ok and isinstance(k, tuple) and k and k[0] == "param":
+                # the kind and the hunks both arrive as parameters: every caller computes the one from the other
+                hp = [h for h in hunk_args if isinstance(h, tuple) and h and h[0] == "param"]
+                sites = [(g, t2) for g in prog.fns.values() for b2, t2 in g.calls()
+                         if (callee_of(t2).get("rpath") or "") == fn.id and not g.blocks[b2]["cleanup"] and "/tests/" not in g.file]
+                if hp and sites:
+                    bad = [(g, t2) for g, t2 in sites
+                           if not from_hunks(g, df.operand_expr(g, t2["args"][k[1] - 1]), [df.operand_expr(g, t2["args"][hp[0][1] - 1])])]
+                    ok = not bad
+                    if bad:
+                        why = "%s passes the kind %s" % (bad[0][0].id.split("::")[-1], df.show(df.operand_expr(bad[0][0], bad[0][1]["args"][k[1] - 1]), 80))
+            ck.require(ok and bool(hunk_args), rule, "the kind of a file patch is recognize_kind() of its hunks (%s)" % fn.id.split("::")[-1],
+                       "%s, not a function of the hunks stored with it: a patch whose kind says otherwise than the shape of its hunks is written "
+                       "in a form that reads back as another kind" % why, fn.where(t), ok_detail="kind(recognize_kind(&hunks)), hunks(hunks)")
+    ck.floor(rule, "places where the parser sets the kind of a file patch", n, 1)
 
 
 def r9_quoted_form_is_read_back(ck):
